@@ -162,6 +162,10 @@ func TestC20(t *testing.T) {
 				hex.EncodeToString(make([]byte, 16)), hex.EncodeToString(make([]byte, 32)),
 				hex.EncodeToString(key[:16]), hex.EncodeToString(append(append([]byte(nil), key...), key...)[:32]),
 				"", "zz", keyHex[:len(keyHex)-1], keyHex + "00", hex.EncodeToString(make([]byte, 24)),
+				// the other key size built from this key: zero-padded behind / in front, or its first half zero-padded
+				hex.EncodeToString(append(append([]byte(nil), key[:16]...), make([]byte, 16)...)),
+				hex.EncodeToString(append(make([]byte, 16), key[:16]...)),
+				hex.EncodeToString(append(append([]byte(nil), key[:16]...), key[:16]...)),
 			} {
 				if k2 == keyHex {
 					continue
